@@ -33,7 +33,9 @@ RULE = (
     "vectors with -1 entries for _unique, random requested lists and lookups. "
     "(model) get_cluster_spikes/get_template_spikes/get_template_counts on generated datasets. "
     "Oracle: list comprehensions over enumerate(vector) and Python sets. Non-trivial: >=2 distinct "
-    "ids with a gap between them, or an unsigned dtype, or a requested id absent from the vector.")
+    "ids with a gap between them, or an unsigned dtype, or a requested id absent from the vector."
+    ' Later additions: ids as Python ints / NumPy integers of every width / 0-d arrays at model l'
+    'evel, 40 000 distinct ids, 5 million spikes.')
 ASSUMPTIONS = []
 
 
